@@ -107,9 +107,9 @@ func (p *streamstatsProcessor) Process(iqr *iqr.IQR) (*iqr.IQR, error) {
 		knownValues[resultCol] = make([]sutils.CValueEnclosure, iqr.NumberOfRecords())
 	}
 
+	// p.currentBucketKey and p.currentIndex carry over from the previous batch:
+	// the stream may reach us in batches of any size.
 	bucketKey := ""
-	p.currentBucketKey = bucketKey
-	p.currentIndex = 0
 
 	for i := 0; i < iqr.NumberOfRecords(); i++ {
 		record := make(map[string]interface{})
